@@ -451,8 +451,20 @@ void top_level_op(World& W, Choices& c)
     return;
   }
   switch (c.weighted({5, 8, 2, 2, 2, 3, 1, is_prop("C09") ? 2u : 0u, is_prop("C16") ? 3u : 0u, is_prop("C05") ? 2u : 0u, is_prop("C16") ? 2u : 0u,
-                      is_prop("C08") ? 2u : 0u, (is_prop("C05") && !kBounded) ? 2u : 0u}))
+                      is_prop("C08") ? 2u : 0u, (is_prop("C05") && !kBounded) ? 2u : 0u,
+                      ((is_prop("C03") || is_prop("C06") || is_prop("C09")) && !kBounded) ? 1u : 0u}))
   {
+  case 13:
+  {
+    // unbounded flavours: the thread re-allocates its queue (once, or twice in a row, which leaves an empty buffer in the chain)
+    int wi = pick_worker(W);
+    if (wi >= 0 && !worker_busy(W, wi) && W.workers[wi].has_logged)
+    {
+      op_shrink(W, wi);
+      if (!W.r->failed && c.pick(2) == 1) op_shrink(W, wi, 64);
+    }
+    break;
+  }
   case 12: op_shrink_chain_then_pair(W); break;
   case 11:
     // C08: backtrace control requests (init_backtrace / flush_backtrace) are re-submitted by the frontend until the queue
